@@ -996,7 +996,7 @@ def _member(t, c, kh, pre=None):
 
 
 def worlds(thorough):
-    """-> {family: [(world, alphabet)]}.  Every penalty type appears at every level of the nests and as a member at
+    """-> {family: [(world, alphabet)]}, {family: length of the op sequences}.  Every penalty type appears at every level of the nests and as a member at
     every position of the combinations; conditions rotate with the type indices"""
     out = {}
     nt, nc = len(TYPES), len(CONDNAMES)
@@ -1064,7 +1064,10 @@ def worlds(thorough):
             m = _member(TYPES[i1], CONDNAMES[(i0 + i1) % nc], MEMBER_KH[0], [I] if i0 % 2 else [])
             wrap = [TYPES[i0], CONDNAMES[(i0 + 2 * i1 + 1) % nc], 20, 5]
             fam.append(({'kind': 'combo', 'comb': kind, 'members': [m], 'settings': SETTINGS[(i0 + i1) % 2], 'wrap': wrap}, A_WRAP))
-    return out
+    depth = dict((k, 3) for k in out)
+    if thorough:
+        depth.update({'nest2': 4, 'combo1': 4, 'not_': 4, 'combo3': 4, 'wrapped': 4})
+    return out, depth
 
 
 def run(ctx):
@@ -1074,15 +1077,14 @@ def run(ctx):
     # contiguous chunks, simplest configurations first: the first case kept per signature is the smallest
     items = [('cfg', (cfgs[i:i + chunk], depth)) for i in range(0, len(cfgs), chunk)]
     items += [('misc', (t, ctx.thorough)) for t in TYPES]
-    wdepth = 4 if ctx.thorough else 3
-    wfam = worlds(ctx.thorough)
-    wchunk = 4 if ctx.thorough else 10
+    wfam, wdepth = worlds(ctx.thorough)
     wby = {}
     for name in sorted(wfam):
-        ws = wfam[name]
-        items += [('world', (ws[i:i + wchunk], wdepth)) for i in range(0, len(ws), wchunk)]
-        wby[name] = {'worlds': len(ws), 'operations': [op_text(o, World(ws[0][0]).roles) for o in ws[0][1]],
-                     'sequences_per_world': sum(len(ws[0][1]) ** i for i in range(wdepth + 1))}
+        ws, d = wfam[name], wdepth[name]
+        wchunk = 10 if d == 3 else 2
+        items += [('world', (ws[i:i + wchunk], d)) for i in range(0, len(ws), wchunk)]
+        wby[name] = {'worlds': len(ws), 'first': _wtext(ws[0][0]), 'last': _wtext(ws[-1][0]), 'operations': [op_text(o, World(ws[0][0]).roles) for o in ws[0][1]],
+                     'op_sequence_length': d, 'sequences_per_world': sum(len(ws[0][1]) ** i for i in range(d + 1))}
     by = {}
     for c in cfgs:
         k = 'depth%d/%s/%s' % (len(c['levels']), c['mode'], c['store'])
@@ -1098,7 +1100,7 @@ def run(ctx):
         'depth3': 'all 729 ordered type triples x condition triples %r with (k,h) %r%s'
                   % (ROT3 if ctx.thorough else ROT3[:2], KH3[0], '; + %r on the first condition triple' % (KH3[1],) if ctx.thorough else ''),
         'additive': '81 type pairs x 16 condition pairs x %d pairs of op prefixes' % (16 if ctx.thorough else 8),
-        'worlds': wby, 'world_op_sequence_length': wdepth,
+        'worlds': wby,
         'worlds_nest2': 'all 81 ordered type pairs x inner penalty used before being wrapped %r (+ store(xa).iter() for a Lagrange '
                         'inner type), (k,h) %r; operations on level 0 and on level 1' % ([[op_text(o) for o in p_] for p_ in PRE_INNER], KH_SKEW[:2]),
         'worlds_nest3': '%s; (middle, innermost) used before being wrapped %r; operations on levels 0, 1, 2'
